@@ -78,8 +78,15 @@ def gen_weighting(rng):
         use_final = True
 
         def final(self, searcher, docnum, score):
-            return score * 2.0 + 1.0
-    return "BM25F+final(2s+1)", FinalBM25F(), lambda st, d, f, term: R.bm25f(st, d, f, term) * 2.0 + 1.0
+            # depends on the document itself (documented use: adjust the score from a stored field of the hit): the
+            # searcher / document number pair handed to final() must identify the document being scored
+            return score * 2.0 + 1.0 + final_bonus(searcher.stored_fields(docnum)["id"])
+    return ("BM25F+final(2s+1+bonus(doc))", FinalBM25F(),
+            lambda st, d, f, term: R.bm25f(st, d, f, term) * 2.0 + 1.0 + final_bonus(d["id"]))
+
+
+def final_bonus(key):
+    return 0.25 * (int(key) % 4)
 
 
 COMPOSITE = ("And", "Or", "DisjunctionMax", "Require", "AndNot", "AndMaybe", "ConstantScoreQuery")
@@ -130,7 +137,7 @@ def expect(s, q, cache, final=None):
     else:
         res = hits(s, q)
         if final is not None:
-            res = {d: final(sc) for d, sc in res.items()}
+            res = {d: final(d, sc) for d, sc in res.items()}
     cache[key] = res
     return res
 
@@ -255,7 +262,7 @@ def run(ctx):
                                 break
                         ctx.case(("collector", model.qshape(q), mname), len(full) > 5)
                 # ---- compose / constant / context monitors
-                unfinal = (lambda sc: (sc - 1.0) / 2.0) if is_final else None
+                unfinal = (lambda dn, sc: (sc - 1.0 - final_bonus(key_of(dn))) / 2.0) if is_final else None
                 for _ in range(10):
                     q = gen_tree(rng, rng.choice([1, 2, 2, 3]))
                     w = dict(wb, query=repr(q))
@@ -264,7 +271,7 @@ def run(ctx):
                         got = hits(s, q)
                         exp = expect(s, q, {}, unfinal)
                         if is_final:
-                            exp = {d: sc * 2.0 + 1.0 for d, sc in exp.items()}
+                            exp = {d: sc * 2.0 + 1.0 + final_bonus(key_of(d)) for d, sc in exp.items()}
                         return got, exp
                     ok, res = ctx.guard("c09.compose", w, body)
                     if not ok:
